@@ -54,6 +54,13 @@ fn want_kind(cfg: &Cfg, method: &str, class: &str, paths: &[&str], want: &[Kind]
         return;
     }
     acc.count("kind_rules_checked", 1);
+    // a backend that does not implement a mutating operation at all (read-only EmbeddedFS) answers NotSupported
+    // before looking at the target: the not-supported rule of the property takes precedence over the other kind rules
+    let mutator = !matches!(method, "open_read" | "open_file" | "read_dir" | "metadata" | "read_to_string" | "walk_dir" | "exists" | "is_file" | "is_dir");
+    if mutator && e.kind == Kind::NotSupported {
+        acc.count("kind_rule_answered_not_supported", 1);
+        return;
+    }
     if !want.contains(&e.kind) {
         acc.violate(mk(
             format!("kind|{}|{}|want:{}|got:{}|{}", method, class, want.iter().map(|k| k.name()).collect::<Vec<_>>().join("/"), e.kind.name(), cfg.family()),
